@@ -142,6 +142,7 @@ class FakeIO:
 
     def feed(self, data, name, arg=None):
         self.rx += data
+        self.rig.last_feed_vt = self.rig.loop.time()
         # a header error is detected once the 19 header octets are read: the event is logged there
         n = 19 if str(arg).startswith('Header') else len(data)
         self.labels.append([n, name, arg, n, False])
@@ -497,7 +498,7 @@ class Rig:
                 return await real_read_ka(peer)
             except Notify as n:
                 if bytes(n.data).startswith(b'hold timer expired while waiting'):
-                    rig.ev('HoldExpire')
+                    rig.ev('HoldExpire', rig.hold_info(getattr(getattr(getattr(peer, 'proto', None), 'negotiated', None), 'holdtime', None)))
                 raise
 
         patch(peermod.Peer, '_read_ka', _read_ka)
@@ -534,7 +535,7 @@ class Rig:
                 return real_check_ka(timer, message, *a)
             except Notify as n:
                 if (n.code, n.subcode) == (timer.code, timer.subcode):
-                    rig.ev('HoldExpire')
+                    rig.ev('HoldExpire', rig.hold_info(getattr(timer, 'holdtime', None)))
                 raise
 
         patch(timermod.ReceiveTimer, 'check_ka', check_ka)
@@ -569,6 +570,14 @@ class Rig:
 
     def ev(self, name, arg=None):
         self.log.append(['ev', name, arg, self.fsm()])
+
+    def hold_info(self, holdtime):
+        """[negotiated hold time, virtual seconds since the last COMPLETE message was handed to the transport]: lets the
+        oracle tell a hold timer that fired from one that was due"""
+        try:
+            return [int(holdtime), round(self.loop.time() - getattr(self, 'last_feed_vt', 0.0), 2)]
+        except Exception:
+            return None
 
     def record_write(self, io, raw):
         for kind, c, s in classify_written(raw):
